@@ -57,6 +57,10 @@ def stub_gap(detail):
     for t in texts:
         if 'AttributeError' in t and any(m in t for m in _STUB_MARKERS):
             return True
+        # the harness's never-opened stand-in files (paths under /nonexistent/): code that stats or opens them outside the stubbed worker
+        # (a correct rewrite may do so) cannot be judged by a condition that hands it such files -> not decided for that condition
+        if 'FileNotFoundError' in t and '/nonexistent/' in t:
+            return True
     return False
 
 
